@@ -101,7 +101,7 @@ def readme():
     with open(os.path.join(SD, "README.md"), "w") as f:
         if os.path.basename(SD) == "seeded_permitted":
             f.write("# Permitted changes of observable behaviour (over-strict-oracle test)\n\n"
-                    "Rounds 6 (`Cnnv`) and 7 (`Cnnm`) asked each sub-agent (property text + scratch worktree only) for a change that alters OBSERVABLE "
+                    "Rounds 6 (`Cnnv`), 7 (`Cnnm`) and 8 (`Cnnj`) asked each sub-agent (property text + scratch worktree only) for a change that alters OBSERVABLE "
                     "behaviour in a respect its property leaves open, with the property still holding -- and to argue from the "
                     "words of the statement why. A check of that property which alarms on such a change demands more than the "
                     "property states. Each was confirmed by hand (its demo holds on both trees and shows the behavioural "
